@@ -312,6 +312,7 @@ def generate(rng, tier, i):
             else:
                 sel = rng.sample(blocks, rng.randrange(1, min(3, len(blocks)) + 1))
                 ops.append({"op": "save_blocks", "blocks": sel, "comment": gen_comment(rng),
+                            "container": rng.choice(["list", "list", "tuple", "generator", "iter", "map", "dict_values"]),
                             "single": len(sel) == 1 and rng.random() < 0.5})
                 saves += 1
         else:
@@ -823,7 +824,13 @@ class CifEngine(Engine):
     def _save_call(self, op, lib, sink, cif):
         if op["op"] == "save_blocks":
             blocks = [lib[b] for b in op["blocks"]]
-            content = blocks[0] if op.get("single") else blocks
+            # save_cif takes Block | Iterable[Block] | CIF: the container kinds callers use
+            kind = op.get("container", "list")
+            content = blocks[0] if op.get("single") else {
+                "list": lambda: blocks, "tuple": lambda: tuple(blocks),
+                "generator": lambda: (b for b in blocks), "iter": lambda: iter(list(blocks)),
+                "map": lambda: map(lambda b: b, blocks),
+                "dict_values": lambda: {id(b): b for b in blocks}.values()}[kind]()
             return core.capture(cif.save_cif, sink, content, comment=op["comment"])
         b = lib[op["cif"]]
         if op["via"] == "method":
